@@ -184,3 +184,55 @@ func c05Reset() {
 	shutdownFlag.UnSet()
 	modulesChangeNotifyFn = nil
 }
+
+// a running event hook belongs to the module that registered it: stopping that
+// module cancels the hook's context before the stop routine runs and waits for
+// the hook, while the module that emitted the event stays online
+func VerifC05_EventHook() {
+	rt.NoTimers()
+	rt.SchedYieldOnly(false)
+	SetStdErrReporting(false)
+	c05Reset()
+	moduleStopTimeout = time.Hour
+	var hooker *Module
+	hookRunning, hookReturned, hookBegan := false, false, false
+	stopFn := func() error {
+		if hookBegan {
+			rt.Assert(hooker.Ctx.Err() != nil, "eventhook/module-context-cancelled-before-stopfn")
+		}
+		return nil
+	}
+	source := Register("src", nil, nil, nil)
+	hooker = Register("hook", nil, nil, stopFn, "src")
+	rt.Assert(initDependencies() == nil, "eventhook/setup")
+	for _, m := range []*Module{source, hooker} {
+		m.status = StatusOnline
+		close(m.startComplete)
+	}
+	source.RegisterEvent("ev", true)
+	err := hooker.RegisterEventHook("src", "ev", "d", func(ctx context.Context, _ interface{}) error {
+		hookBegan = true
+		hookRunning = true
+		<-ctx.Done() // a well-behaved hook returns once its context is cancelled
+		rt.Yield()
+		hookRunning = false
+		hookReturned = true
+		return nil
+	})
+	rt.Assert(err == nil, "eventhook/register")
+	source.TriggerEvent("ev", nil)
+	for i := 0; i < 3; i++ {
+		rt.Yield()
+	}
+	began := hookBegan
+	reports := make(chan *report)
+	hooker.stop(reports)
+	<-reports
+	rt.Assert(hooker.Status() == StatusOffline, "eventhook/offline-at-report")
+	if began {
+		rt.Assert(hookReturned, "eventhook/running-hook-returned-before-report")
+		rt.Assert(!hookRunning, "eventhook/no-hook-running-at-report")
+	}
+	rt.Assert(source.Status() == StatusOnline, "eventhook/source-module-untouched")
+	rt.Reach("eventhook-end")
+}
